@@ -9,6 +9,8 @@
 //	                storage calls (a db.AuthDB wrapper parks callers before and after Revoke/RevokeSSH/
 //	                IsRevoked/IsSSHRevoked), with injected storage faults and restarts; answers and a dump of
 //	                both revoked tables vs the model
+//	-stage acme     a certificate issued through the real ACME flow (harness/cmd/c12/acmeenv), then revocations through the real
+//	                ACME revoke-cert handler (account key / certificate key) and over mTLS, renew and rekey; vs the model
 //	-stage serial   RevokeRequest.Validate's serial canonicalisation vs the model
 //	-stage race     k simultaneous revocations of one serial (exactly one 200), revoke-vs-renew pairs
 //	-stage defects  D13 (SSH revocation under a non-canonical serial string; fixed by c1e180f) and its controls
@@ -26,11 +28,12 @@ import (
 )
 
 type Case struct {
-	Hist   *Hist   `json:",omitempty"`
-	Serial *string `json:",omitempty"`
-	SSHSer *string `json:",omitempty"`
-	Race   *Race   `json:",omitempty"`
-	Defect *Defect `json:",omitempty"`
+	Hist   *Hist     `json:",omitempty"`
+	Serial *string   `json:",omitempty"`
+	SSHSer *string   `json:",omitempty"`
+	ACME   *ACMECase `json:",omitempty"`
+	Race   *Race     `json:",omitempty"`
+	Defect *Defect   `json:",omitempty"`
 }
 
 func caseField(k *Case) string {
@@ -57,6 +60,8 @@ func runCase(o *c.Out, k *Case) {
 			in, impl = runSerial(*k.Serial)
 		case k.SSHSer != nil:
 			in, impl = runSSHSerial(*k.SSHSer)
+		case k.ACME != nil:
+			in, impl = runACME(k.ACME)
 		case k.Race != nil:
 			in, impl, want = runRace(k.Race)
 		case k.Defect != nil:
@@ -77,7 +82,7 @@ func main() {
 	n := flag.Int("n", 100, "number of generated cases")
 	out := flag.String("out", "", "output file")
 	replay := flag.String("replay", "", "file of lines with a case=x<hex json> field to re-run")
-	stage := flag.String("stage", "hist", "hist | serial | race | defects")
+	stage := flag.String("stage", "hist", "hist | acme | serial | race | defects")
 	flag.Parse()
 	o, err := c.NewOut(*out)
 	if err != nil {
@@ -120,6 +125,13 @@ func main() {
 		}
 		for i := 0; i < *n; i++ {
 			runCase(o, &Case{Hist: genHist(r.Fork())})
+		}
+	case "acme":
+		runCase(o, &Case{ACME: &ACMECase{Ops: []string{"renew", "acmerev", "renew", "rekey", "acmerev", "acmerevkey", "mtlsrev"}}})
+		runCase(o, &Case{ACME: &ACMECase{Ops: []string{"rekey", "acmerevkey", "renew", "acmerev"}}})
+		runCase(o, &Case{ACME: &ACMECase{Ops: []string{"mtlsrev", "acmerev", "acmerevkey", "renew"}}})
+		for i := 0; i < *n; i++ {
+			runCase(o, &Case{ACME: genACME(r.Fork())})
 		}
 	case "serial":
 		for _, s := range cornerSerials() {
